@@ -117,7 +117,20 @@ P9 = {   # identifiers that start a line: a range that begins at column 0 must n
             ('main.oal', 3, 0, 'cursor', 'use', 'cursor'), ('main.oal', 4, 22, 'page', 'use', 'page'), ('main.oal', 6, 0, 'cursor', 'use', 'cursor')],
     "nonident": [("main.oal", 2, 11)],
 }
-PROGRAMS = {"uses-at-the-start-of-a-line": P9, "one-name-three-roles": P8, "modules-in-sub-directories": P7, "unqualified-import": P5, "nested-same-name-binders": P6, "single-module": P1, "two-modules": P2, "shadowing-and-reference": P3, "sibling-modules-same-shape": P4}
+P10 = {   # identifier tokens with nothing between them (application to an @reference written without a space)
+    "files": {"main.oal": "let @item = { 'sku str };\nlet @tag = str;\nlet wrap x = [x];\nlet pair a b = { 'a a, 'b b };\nres /w on get -> <wrap@item>;\nres /p on get -> <pair@tag@item>;\n"},
+    "occ": [('main.oal', 0, 4, '@item', 'decl', 'item'), ('main.oal', 1, 4, '@tag', 'decl', 'tag'), ('main.oal', 2, 4, 'wrap', 'decl', 'wrap'), ('main.oal', 2, 9, 'x', 'binder', 'wx'), ('main.oal', 2, 14, 'x', 'use', 'wx'),
+            ('main.oal', 3, 4, 'pair', 'decl', 'pair'), ('main.oal', 3, 9, 'a', 'binder', 'pa'), ('main.oal', 3, 11, 'b', 'binder', 'pb'), ('main.oal', 3, 20, 'a', 'use', 'pa'), ('main.oal', 3, 26, 'b', 'use', 'pb'),
+            ('main.oal', 4, 18, 'wrap', 'use', 'wrap'), ('main.oal', 4, 22, '@item', 'use', 'item'), ('main.oal', 5, 18, 'pair', 'use', 'pair'), ('main.oal', 5, 22, '@tag', 'use', 'tag'), ('main.oal', 5, 26, '@item', 'use', 'item')],
+    "nonident": [("main.oal", 4, 17)],
+}
+P11 = {   # a built-in function among the identifiers
+    "files": {"main.oal": "let base = /items;\nlet one = concat base /{ 'id int };\nres base on get -> <[{ 'self one }]>;\nres one on get -> <{ 'name str }>;\n"},
+    "occ": [('main.oal', 0, 4, 'base', 'decl', 'base'), ('main.oal', 1, 4, 'one', 'decl', 'one'), ('main.oal', 1, 17, 'base', 'use', 'base'), ('main.oal', 2, 4, 'base', 'use', 'base'),
+            ('main.oal', 2, 29, 'one', 'use', 'one'), ('main.oal', 3, 4, 'one', 'use', 'one')],
+    "nonident": [("main.oal", 0, 9)],
+}
+PROGRAMS = {"built-in-function-in-use": P11, "adjacent-identifier-tokens": P10, "uses-at-the-start-of-a-line": P9, "one-name-three-roles": P8, "modules-in-sub-directories": P7, "unqualified-import": P5, "nested-same-name-binders": P6, "single-module": P1, "two-modules": P2, "shadowing-and-reference": P3, "sibling-modules-same-shape": P4}
 
 
 def relname(uri, root):
@@ -276,6 +289,44 @@ def run(rdir, want=("definition", "references", "rename")):
                         a = re.sub(r"(?m)^    %s:$" % o1, "    %s:" % n1, a)
                     if after["rc"] != base["rc"] or a != b:
                         probs.append("%s: after renaming '%s' the program %s" % (pname, name, "is rejected" if after["rc"] != 0 else "compiles to a different document"))
+        # ---- every other word of the sources (built-in functions, keywords, property names, ...): whatever the server
+        # offers for rename must be renamed without taking the server down, and the result must still mean the same
+        if "rename" in want:
+            known = {(fn, l, c) for fn, l, c, _, _, _ in P["occ"]}
+            for fn, text in files.items():
+                for l, line in enumerate(text.split("\n")):
+                    for m in re.finditer(r"[@A-Za-z_][A-Za-z0-9_$@-]*", line):
+                        c = len(line[:m.start()].encode("utf-16-le")) // 2
+                        if (fn, l, c) in known or (m.start() > 0 and line[m.start() - 1] in "'\"`"):
+                            continue
+                        pr = req("textDocument/prepareRename", fn, l, c)
+                        if not (isinstance(pr, dict) and "start" in pr):
+                            continue
+                        oldname = text_of(files, fn, pr)
+                        new = ("@zz8" if (oldname or "").startswith("@") else "zz8")
+                        r = req("textDocument/rename", fn, l, c, {"newName": new})
+                        if r is None:
+                            continue            # already reported: the server did not answer
+                        ch = (r or {}).get("changes") or {}
+                        edits = [(relname(u, root), e) for u, es in ch.items() for e in es]
+                        if any(text_of(files, f2, e["range"]) != oldname for f2, e in edits):
+                            probs.append("%s: rename of '%s' at %s:%d:%d edits text that is not the old name" % (pname, oldname, fn, l, c))
+                            continue
+                        if not edits:
+                            continue
+                        new_files = apply_edits(files, ch, root)
+                        try:
+                            os.remove(os.path.join(cdir, "out.yaml"))
+                        except OSError:
+                            pass
+                        after = run_cli(cli, new_files, workdir=cdir)
+                        a2, b2 = (base["target"] or ""), (after["target"] or "")
+                        if (oldname or "").startswith("@"):
+                            o1, n1 = re.escape(oldname[1:]), new[1:]
+                            a2 = re.sub(r"(?<=#/components/schemas/)%s(?=')" % o1, n1, a2)
+                            a2 = re.sub(r"(?m)^    %s:$" % o1, "    %s:" % n1, a2)
+                        if after["rc"] != base["rc"] or a2 != b2:
+                            probs.append("%s: after renaming '%s' (offered at %s:%d:%d) the program %s" % (pname, oldname, fn, l, c, "is rejected" if after["rc"] != 0 else "compiles to a different document"))
         for fn, l, c in P.get("nonident", []):
             if "definition" in want:
                 r = req("textDocument/definition", fn, l, c)
